@@ -581,6 +581,52 @@ fn main() {
         });
     }
 
+    // ---- reconfiguration after use (oracle only): an instance that already routed shreds and is then given another
+    // sampler / fanout must route exactly like an instance that was built with that configuration and never used
+    for &n in &[4usize, 9, 33, 150] {
+        let st = stakes("random", n, &mut rng);
+        let vals = env.validators(&st);
+        let epoch = EpochInfo::new(vals.clone());
+        let own = rng.below(n as u64) as usize;
+        let vei = Arc::new(ValidatorEpochInfo::new(ValidatorIndex::new(own as u64), epoch.clone()));
+        cx.rec.begin_case("reconfigured-after-use");
+        let queries: Vec<Shred> = (0..6).map(|k| env.shred(10 + (k / 3) as u64, k % 3, (7 * k) % 64)).collect();
+        // Rotor: warm the cache with the default sampler, then switch to a plain stake-weighted sampler
+        let (net_a, net_b) = (RecNet::default(), RecNet::default());
+        let used = Rotor::new(net_a.clone(), vei.clone());
+        for q in &queries { let _ = env.call(&used, &net_a, q, false); let _ = env.call(&used, &net_a, q, true); }
+        // the new sampler weighs the validators differently (stakes reversed), so stale cached committees show
+        let mut st2 = st.clone();
+        st2.reverse();
+        let vals2 = env.validators(&st2);
+        let used = used.with_sampler(StakeWeightedSampler::new(vals2.clone()).into_quorum_strategy(TOTAL_SHREDS));
+        let fresh = Rotor::new(net_b.clone(), vei.clone()).with_sampler(StakeWeightedSampler::new(vals2.clone()).into_quorum_strategy(TOTAL_SHREDS));
+        for q in &queries {
+            for fwd in [false, true] {
+                let (a, b) = (env.call(&used, &net_a, q, fwd), env.call(&fresh, &net_b, q, fwd));
+                let pos = shred_position(q);
+                cx.rec.oracle(a == b, "rotor-reconfigured-instance-disagrees", || format!("Rotor n={n} validator {own}: instance that routed shreds before with_sampler answers {} for {:?} (forward={fwd}), a fresh instance with the same sampler answers {}", a.line(), (pos.0.inner(), pos.1, pos.2), b.line()));
+            }
+        }
+        // Turbine: warm the cache with one fanout, then switch
+        let (net_c, net_d) = (RecNet::default(), RecNet::default());
+        let f1 = 2 + rng.below(3) as usize;
+        let f2 = f1 + 1 + rng.below(3) as usize;
+        let used_t = Turbine::new(net_c.clone(), vei.clone()).with_fanout(f1);
+        for q in &queries { let _ = env.call(&used_t, &net_c, q, false); let _ = env.call(&used_t, &net_c, q, true); }
+        let used_t = used_t.with_fanout(f2);
+        let fresh_t = Turbine::new(net_d.clone(), vei.clone()).with_fanout(f2);
+        for q in &queries {
+            for fwd in [false, true] {
+                let (a, b) = (env.call(&used_t, &net_c, q, fwd), env.call(&fresh_t, &net_d, q, fwd));
+                let pos = shred_position(q);
+                cx.rec.oracle(a == b, "turbine-reconfigured-instance-disagrees", || format!("Turbine n={n} validator {own}: instance that routed shreds with fanout {f1} and was then set to {f2} answers {} for {:?} (forward={fwd}), a fresh instance answers {}", a.line(), (pos.0.inner(), pos.1, pos.2), b.line()));
+            }
+        }
+        cx.rec.step("idx 0 0", "idx 0");
+        cx.rec.end_case(n as u64, true);
+    }
+
     // ---- Turbine
     let fanouts: Vec<usize> = if args.thorough { vec![1, 2, 3, 7, 200, 1 << 40] } else { vec![1, 2, 3, 200] };
     for &n in &ns {
